@@ -3,7 +3,7 @@ from .c17 import _TRUSTED
 SPEC = {
     "id": "C02",
     "harness": "c02",
-    "n": {"quick": 300, "thorough": 12000},
+    "n": {"quick": 800, "thorough": 20000},
     "coq_modules": ["Server.Model", "Server.Spec", "Server.Witness"],
     "components": {"1": "an observed event is not an enabled step of the model", "2": "`Previous` given to a computation differs from the model's",
                    "3": "socket envelopes differ", "4": "SubscriptionLogger calls differ", "5": "merge.ts client state differs from the model's fold",
